@@ -153,7 +153,11 @@ def check_case(case, ctx):
             a += b
             ctx.fail("temperature-mismatch-accepted", fam + "/iadd")
         except Exception:
-            pass
+            # a refused addition leaves the left operand as it was
+            ctx.close("temperature-mismatch-refused/left-operand-unchanged", numpy.array(a.data), ref_data[i], rtol=1e-12,
+                      scale=max(1e-300, float(numpy.max(numpy.abs(ref_data[i])))), where=fam + "/iadd/data")
+            ctx.close("temperature-mismatch-refused/left-operand-unchanged", a.lamb, lam_int[i], rtol=1e-7,
+                      where=fam + "/iadd/reorganisation-energy")
 
     # ---- the addition history -----------------------------------------------------------------------------
     def ev(node):
